@@ -429,6 +429,38 @@ def rule_field_types_resolved(repo: Repo, rep, rule: str) -> None:
         return bool(gth) and bool(stores)
 
     resolvers = {q for q, f in conv.functions.items() if "." not in q and resolves(f)}
+    # ... and the resolver really resolves: the only way around `get_type_hints` is "this is not a dataclass" (a shortcut such as "no annotation
+    # is a string" misses `List["Node"]`, whose annotation is a generic alias that merely contains the forward reference)
+    from sa.cfg import CFG as _CFG, guards as _gd
+
+    for q in sorted(resolvers):
+        f = conv.functions[q]
+        cfg = _CFG(f.node)
+        dom = cfg.dominators()
+        gnodes = {n.id for n in cfg.nodes if n.ast is not None and n.kind == "stmt" and any((dotted(c.func) or "").endswith("get_type_hints") for c in calls_in(n.ast))}
+        sub = f"{conv.relpath}:{q} every dataclass reaches get_type_hints"
+        bad = None
+        for n in cfg.nodes:
+            if n.kind == "stmt" and isinstance(n.ast, ast.Return) and not n.copy and not (dom[n.id] & gnodes):
+                gs = [g for g, pol in _gd(cfg, n.id, dom) if g.kind == "test"]
+                p0 = f.node.args.args[0].arg if f.node.args.args else None  # type: ignore[attr-defined]
+
+                def harmless(t: ast.AST) -> bool:
+                    """`not is_dataclass(cls)` or 'this very class was resolved before' (`cls in <record>`)"""
+                    if "is_dataclass" in norm(t):
+                        return True
+                    while isinstance(t, ast.UnaryOp):
+                        t = t.operand
+                    return isinstance(t, ast.Compare) and len(t.ops) == 1 and isinstance(t.ops[0], (ast.In, ast.NotIn)) and isinstance(t.left, ast.Name) and t.left.id == p0
+
+                if not gs or not all(harmless(g.ast) for g in gs):
+                    bad = (n, [g for g in gs if not harmless(g.ast)] or gs)
+        if bad is not None:
+            rep.violation(rule, sub, f"{f.fq}|resolver-shortcut",
+                          f"`{q}` returns without resolving under `{norm(bad[1][-1].ast)[:80] if bad[1] else 'no condition'}`: a class whose forward references sit inside containers "
+                          "(`children: List['Node']` - the annotation is not a string) keeps them, cattrs fails with 'Unsupported type: ForwardRef' and leaves nested instances raw", f.loc(bad[0].ast))
+        else:
+            rep.ok(rule, sub, "the only return in front of get_type_hints is the not-a-dataclass guard", f.loc())
     for name, maker in (("_make_dataclass_structure_fn", "make_dict_structure_fn"), ("_make_dataclass_unstructure_fn", "make_dict_unstructure_fn")):
         fn = conv.functions.get(name)
         if fn is None:
